@@ -23,6 +23,9 @@ def norm(e) -> str:
     if isinstance(e, ast.AST) and any(isinstance(x, ast.Call) and isinstance(x.func, ast.Name) and x.func.id == "slice" for x in ast.walk(e)):
         import copy
         e = _SliceCalls().visit(copy.deepcopy(e))
+    if isinstance(e, ast.AST) and any(isinstance(x, ast.Call) and isinstance(x.func, ast.Name) and x.func.id == "getattr" and len(x.args) == 2 for x in ast.walk(e)):
+        import copy
+        e = _GetattrLiteral().visit(copy.deepcopy(e))
     txt = unparse(e) if not isinstance(e, str) else e
     out, prev_word = [], False
     for t in _TOK.findall(txt):
@@ -32,6 +35,17 @@ def norm(e) -> str:
         out.append(t)
         prev_word = word
     return "".join(out)
+
+
+class _GetattrLiteral(ast.NodeTransformer):
+    """getattr(o, 'name') with a literal identifier and no default IS o.name"""
+
+    def visit_Call(self, n):
+        self.generic_visit(n)
+        if isinstance(n.func, ast.Name) and n.func.id == "getattr" and len(n.args) == 2 and not n.keywords and isinstance(n.args[1], ast.Constant) \
+                and isinstance(n.args[1].value, str) and n.args[1].value.isidentifier():
+            return ast.copy_location(ast.Attribute(value=n.args[0], attr=n.args[1].value, ctx=ast.Load()), n)
+        return n
 
 
 class _SliceCalls(ast.NodeTransformer):
